@@ -137,6 +137,14 @@ where
         ipermute(b, tmp, &self.perm);
     }
 
+    /// read-only access to the permuted internal copy of the given input entries
+    #[cfg(clarabel_verif)]
+    pub fn verif_values(&self, indices: &[usize]) -> Vec<T> {
+        let nzval = &self.workspace.triuA.nzval;
+        let AtoPAPt = &self.workspace.AtoPAPt;
+        indices.iter().map(|&idx| nzval[AtoPAPt[idx]]).collect()
+    }
+
     /// Update a subset of the values of the matrix to be (re)factored.  See [`refactor`](crate::qdldl::QDLDLFactorisation::refactor)
     ///
     pub fn update_values(&mut self, indices: &[usize], values: &[T]) {
@@ -150,14 +158,6 @@ where
 
     /// Update a subset of the values of the matrix to be (re)factored.  See [`refactor`](crate::qdldl::QDLDLFactorisation::refactor)
     ///
-    /// read-only access to the permuted internal copy of the given input entries
-    #[cfg(clarabel_verif)]
-    pub fn verif_values(&self, indices: &[usize]) -> Vec<T> {
-        let nzval = &self.workspace.triuA.nzval;
-        let AtoPAPt = &self.workspace.AtoPAPt;
-        indices.iter().map(|&idx| nzval[AtoPAPt[idx]]).collect()
-    }
-
     pub fn scale_values(&mut self, indices: &[usize], scale: T) {
         let nzval = &mut self.workspace.triuA.nzval; // post perm internal data
         let AtoPAPt = &self.workspace.AtoPAPt; //mapping from input matrix entries to triuA
